@@ -356,6 +356,90 @@ def run_emitter(v, tier, fix, acc):
     acc['methods_fired'] = len(trail & METHODS)
 
 
+
+# ------------------------------------------------------------------ part C: the repository's data files re-emitted
+OPT_PRODUCT = [dict(canonical=c, indent=i, width=w, allow_unicode=u, line_break=l)
+               for c in (False, True) for i in (2, 4, 9) for w in (5, 20, 80) for u in (False, True) for l in ('\n', '\r\n', '\r')]
+REPERTOIRE = [97, 97, 97, 98, 32, 32, 32, 10, 10] + FULL
+
+
+def corpus_files():
+    fs = sorted(glob.glob(os.path.join(REPO, 'tests/legacy_tests/data/*.data')) +
+                glob.glob(os.path.join(REPO, 'tests/legacy_tests/data/*.canonical')))
+    return [f for f in fs if os.path.getsize(f) < 20000]
+
+
+def corpus_work(args):
+    files, nopts, seed, sample, nrand = args
+    yaml = use_repo()
+    E = yaml.events
+    out = {'pairs': 0, 'traces': [], 'meta': [], 'same': 0, 'files': 0, 'streams': 0}
+    for f in files:
+        rnd = random.Random('%d/%s' % (seed, os.path.basename(f)))
+        try:
+            events = list(yaml.parse(open(f, 'rb').read(), Loader=yaml.Loader))
+        except Exception:
+            continue
+        if any(0xD800 <= ord(c) <= 0xDFFF for e in events for c in (getattr(e, 'value', None) or '')):
+            continue            # lone surrogates are outside the domain (Unicode scalar values)
+        out['files'] += 1
+        variants = [('as-is', events)]
+        for j in range(nrand):      # same structure, scalar texts from the seeded generator over the full repertoire
+            evs = []
+            for e in events:
+                if isinstance(e, E.ScalarEvent):
+                    val = ep.concretise([rnd.choice(REPERTOIRE) for _ in range(rnd.randrange(0, 14))], rnd)
+                    e = E.ScalarEvent(e.anchor, e.tag, e.implicit, val, style=rnd.choice([None, None, "'", '"', '|', '>']))
+                evs.append(e)
+            variants.append(('random-scalars-%d' % j, evs))
+        for vname, evs in variants:
+            ein = [ep.project(e) for e in evs]
+            for opts in rnd.sample(OPT_PRODUCT, nopts) if nopts < len(OPT_PRODUCT) else OPT_PRODUCT:
+                out['streams'] += 1
+                for em, D, pa, L in PAIRS:
+                    o = ep.emit_parse(yaml, evs, getattr(yaml, D), getattr(yaml, L), opts)
+                    out['pairs'] += 1
+                    same = o['outcome'] == 'ok' and identical(ein, o['eout'])
+                    if same:
+                        out['same'] += 1
+                    if not same or rnd.random() < sample:
+                        out['traces'].append({'wf': 1, 'outcome': o['outcome'], 'ein': ein, 'eout': o['eout']})
+                        out['meta'].append({'emitter': em, 'parser': pa, 'opts': opts, 'input': os.path.basename(f), 'variant': vname,
+                                            'text': o['text'] if o['text'] is None or len(o['text']) < 600 else o['text'][:600] + '...',
+                                            'err': o['err'], 'styles': o.get('styles', [])})
+    return out
+
+
+def run_corpus(v, tier, acc):
+    files = corpus_files()
+    nopts, nrand = (3, 1) if tier == 'quick' else (len(OPT_PRODUCT), 3)
+    chunks = [(files[i::48], nopts, SEED, 0.01, nrand) for i in range(48)]
+    with mp.Pool(16) as pool:
+        outs = pool.map(corpus_work, chunks)
+    traces = [t for o in outs for t in o['traces']]
+    meta = [m for o in outs for m in o['meta']]
+    verdicts, s2 = trace.judge('Trace_EmitParse', traces, 'C05_corpus', batch=4000)
+    acc['states'] += s2
+    acc['pairs'] += sum(o['pairs'] for o in outs)
+    acc['judged'] += len(traces)
+    acc['same'] += sum(o['same'] for o in outs)
+    acc['corpus_files'] = sum(o['files'] for o in outs)
+    acc['corpus_streams'] = sum(o['streams'] for o in outs)
+    for m, t, (ok, why, at) in zip(meta, traces, verdicts):
+        if not ok:
+            clause, _, defect = why.partition(':')
+            sty = '-'
+            if clause == 'value':
+                nsc = sum(1 for e in t['eout'][:at] if e['k'] == 'Scalar')
+                sty = m['styles'][nsc - 1] if 0 < nsc <= len(m['styles']) else '-'
+            det = dict(m, outcome=t['outcome'], at_event=at)
+            if 0 < at <= len(t['ein']):
+                det['event_in'] = t['ein'][at - 1]
+                det['event_out'] = t['eout'][at - 1] if at <= len(t['eout']) else None
+            v.violation({'emitter': m['emitter'], 'parser': m['parser'], 'clause': clause, 'defect': defect or clause,
+                         'style': sty, 'part': 'corpus', 'input': m['input']}, det)
+
+
 def main(tier, replay=None):
     v = Verdict('C05', tier)
     yaml = use_repo()
@@ -366,11 +450,14 @@ def main(tier, replay=None):
         run_scalars(v, tier, fix, acc)
     if os.environ.get('C05_PARTS', 'ABC').find('B') >= 0:
         run_emitter(v, tier, fix, acc)
+    if os.environ.get('C05_PARTS', 'ABC').find('C') >= 0:
+        run_corpus(v, tier, acc)
     v.cov = {'states': acc['states'], 'transitions': acc['trans'], 'traces_validated_against_impl': acc['pairs'],
              'pairs_judged_by_tlc': acc['judged'], 'pairs_identical_on_all_compared_fields': acc['same'],
              'scalar_styles_replayed': acc['styles'], 'model_diagnosed_defect_sites': acc['lbad'], 'event_streams_replayed': acc['streams'],
              'model_outcomes': acc['outcomes'], 'emitter_methods_fired': acc.get('methods_fired'),
              'emitter_scalar_contexts': acc.get('emitter_scalar_contexts'),
+             'corpus_files': acc.get('corpus_files'), 'corpus_streams_re_emitted': acc.get('corpus_streams'),
              'model_outputs_with_a_fold_or_break': acc['folds'], 'L_variant_repairs_detected_in_tree': fix,
              'exhaustive': True, 'samples': acc['samples'][:6],
              'configs': {n: SCONF[n] for n in STIERS[tier]}}
